@@ -258,7 +258,14 @@ def md_escape(s):
     return s.replace("|", "\\|").replace("\n", " ⏎ ")
 
 
-def write_md(data, md_path, mutants_order):
+def write_md(data, md_path, mutants_order, eqv=None):
+    """eqv: id -> reason, from the CURRENT mutant list (it overrides what was stored with a result)"""
+    if eqv is not None:
+        for rs in data["results"].values():
+            for mid, r in rs.items():
+                r.pop("equivalent", None)
+                if mid in eqv:
+                    r["equivalent"] = eqv[mid]
     tags = data.get("tags", [])
     lines = []
     lines.append("# Model-mutation audit — decoder-side hand models")
@@ -335,8 +342,10 @@ def main():
     data["mutants_file"] = a.mutants
     data["json"] = a.out
     order = [m["id"] for m in mutants]
+    eqv = {m["id"]: m["equivalent"] for m in mutants if "equivalent" in m}
     if a.md_only:
-        write_md(data, os.path.join(VERIF, a.md), order)
+        write_md(data, os.path.join(VERIF, a.md), order, eqv)
+        json.dump(data, open(out_path, "w"), indent=1, ensure_ascii=False)
         return
     sel = mutants
     if a.only:
@@ -419,7 +428,8 @@ def main():
         if not ok:
             print("WARNING: final rebuild of the unchanged driver failed:\n" + out[-1000:])
     json.dump(data, open(out_path, "w"), indent=1, ensure_ascii=False)
-    write_md(data, os.path.join(VERIF, a.md), order)
+    write_md(data, os.path.join(VERIF, a.md), order, eqv)
+    json.dump(data, open(out_path, "w"), indent=1, ensure_ascii=False)
     rs = data["results"][a.tag]
     cnt = {}
     for r in rs.values():
